@@ -54,8 +54,9 @@ def TestOneInput(data):
             # duplicate another, delete a token + insert one: every count is kept and the file is well-formed with other content):
             # no count-based reader can notice - outside the fault model.  A sequence consists of faults of ONE kind.
             continue
-        if fault[0] == "del" and faults:
-            # second deletion: not inside an uncounted block when the first one was (a complete record of such a block could vanish)
+        if fault[0] in ("del", "dup") and faults:
+            # second deletion / duplication: not inside an uncounted block when the first one was (a complete record of such a block
+            # could vanish or appear)
             ls_ = damaged.splitlines()
             unc = c10.uncounted_lines(fmt, ls_)
             if unc and (fault[1][0] % len(ls_)) in unc and del_in_uncounted:
@@ -63,7 +64,7 @@ def TestOneInput(data):
         d2 = c10.apply_fault(fmt, damaged, fault)
         if d2 is None:
             continue
-        if fault[0] == "del":
+        if fault[0] in ("del", "dup"):
             ls_ = damaged.splitlines()
             if (fault[1][0] % len(ls_)) in c10.uncounted_lines(fmt, ls_):
                 del_in_uncounted = True
